@@ -170,14 +170,17 @@ def run_inproc(case):
         common = dict(learner=["linear", "svc", "online", "knn:proba"][case["index"] % 4], folds=int(2 + case["index"] % 3), seed=int(rng.integers(1 << 30)),
                       test_fdr=0.1, train_fdr=0.1, max_iter=2, dedup=bool(case["index"] % 4 != 3), rollup=True,
                       peps_algorithm=["kde_nnls", "qvality", "kde_nnls"][case["index"] % 3])
+        if common["learner"] == "knn:proba":
+            common["peps_algorithm"] = "qvality"  # scores in [0,1] with a pile-up at 0: the KDE pi0 slope often fails
         base = pipeline_main.run(dict(common, paths=[str(pin)], dest=str(d / "base"), workers=1))
         bfiles = read_files(d / "base") if base["status"] == "ok" else {}
         res.count("pipeline_runs")
         extra = dict(rows=n, dedup=common["dedup"], learner=common["learner"], folds=common["folds"],
                      n_features=len(tab["features"]))
         if base["status"] != "ok" and not base.get("explicit"):
-            res.violate("crash", str(base.get("sig")) + "/baseline", msg=(base.get("error") or {}).get("msg"), **extra)
-            return res
+            # a failure of the baseline configuration itself is not a statement about chunking (the PEP estimators'
+            # own failures are C06's business); the variants must then fail in the same way, which compare() checks
+            res.count("baseline_failed:" + str(base.get("sig")))
         variants = []
         vals = chunk_values(rng, n)
         for k in range(case["nvar"]):
